@@ -190,3 +190,26 @@ def make_disp(disp, *, vm=None, dmin=-2, dmax=2, window_size=1, conf=None, row0=
                      "offset_row_col": int((window_size - 1) / 2), "measure": "sad", "type_measure": type_measure,
                      "cmax": 100, "sampling_interval": 1, "col_to_compute": np.arange(col0, col0 + cols)})
     return ds
+
+
+def write_tif(path, data, *, dtype=None, descriptions=None, crs=None, transform=None):
+    """Writes a GeoTIFF with rasterio. data: (rows, cols) or (bands, rows, cols)."""
+    import warnings
+    import rasterio
+    data = np.asarray(data)
+    if data.ndim == 2:
+        data = data[np.newaxis]
+    if dtype is None:
+        dtype = data.dtype
+    prof = {"driver": "GTiff", "height": data.shape[1], "width": data.shape[2], "count": data.shape[0], "dtype": np.dtype(dtype).name}
+    if crs is not None:
+        prof["crs"] = crs
+        prof["transform"] = transform
+    with warnings.catch_warnings():
+        warnings.simplefilter("ignore")
+        with rasterio.open(str(path), "w", **prof) as dst:
+            dst.write(data.astype(dtype))
+            if descriptions is not None:
+                for i, d in enumerate(descriptions):
+                    dst.set_band_description(i + 1, d)
+    return str(path)
